@@ -138,9 +138,6 @@ Section WithKmp.
   Qed.
 
   (** ** C05: no returned ring visits a vertex twice *)
-  Hypothesis kmp_short_nodup :
-    forall r r', no_adj_dup r -> kmpDeduplicate r = Ok r' -> (length r' < 3)%nat -> NoDup r'.
-
   Theorem level_repeat_free g hots P cfg L ps :
     (forall idx r, nth_error P idx = Some r ->
                    routing_ok g hots L (ensureCorrectWindingOrder r (negb (Nat.eqb idx 0)))) ->
@@ -156,7 +153,7 @@ Section WithKmp.
         destruct (Hok (Hrt idx r Hn) (Hj idx (le_n _))) as [Hadj Hfl].
         split.
         * intros id Hid. apply Hother; [lia | apply Hj; lia].
-        * apply (cleanup_repeat_free kmp_subseq nr _ _ sets kmp_short_nodup Hadj Hfl Hc).
+        * apply (cleanup_repeat_free kmp_subseq nr _ _ sets Hadj Hfl Hc).
       + intros id _ p. split; reflexivity.
   Qed.
 End WithKmp.
